@@ -297,6 +297,55 @@ def shard_pathnames(shard):
     return st.result([drv])
 
 
+# ---- (e) "under any schema and flags": every flag subset on every option kind, meaningful or not
+ODD_FLAGS = 'LMTUNDXKC'
+ODD_KINDS = ('int', 'float', 'bool', 'str', 'sec', 'func', 'ptr')
+ODD_TEXTS = [b'', b'o = 1', b'o = a', b'o = {1, 2}', b'o = {a}', b'o += 1', b'o += {1}', b'o = {}', b'o += {}', b'o = 1 o = 2', b'o = {1} o += {2}',
+             b'o { }', b'o { x = 1 }', b'o { x = 1 } o { x = 2 }', b'o t { }', b'o t { x = 1 }', b'o t { x = 1 } o t { x = 2 }', b'o t { } o u { }',
+             b'o t { } o T { }', b'o { k = v }', b'o t { k = v k2 = w }', b'o { o { } }', b'o t u { }', b'o = { }  o { }', b'o(1)', b'o()', b'o(a, b)',
+             b'o', b'o =', b'o {', b'o t {', b'o (', b'o +=', b'O = 1', b'O { x = 1 }', b'o|x = 1', b'o=t|x = 1', b'o=0|x = 1', b'o { } o=0|x = 2',
+             b'o t { } o=t|x = 2', b'o = 1 z = 2', b'o { x = 1 } z = 2', b'z = 1 o = 1', b'# c\no = 1', b'# c\no { x = 1 }', b'# c\no t { }']
+
+
+def odd_schema(kind, mask):
+    fl = ''.join(f for k, f in enumerate(ODD_FLAGS) if mask >> k & 1)
+    if kind == 'sec':
+        o = Opt('sec', 'o', fl, sub=[Opt('int', 'x', '', 1), Opt('str', 'xl', 'L', [b'a'])])
+    elif kind == 'func':
+        o = Opt('func', 'o', fl, None, 'u')
+    elif kind == 'ptr':
+        o = Opt('ptr', 'o', fl, None, 'pf')
+    else:
+        d = {'int': 7, 'float': 1.5, 'bool': True, 'str': b'd'}[kind]
+        dl = {'int': [b'7', b'8'], 'float': [b'1.5'], 'bool': [b'true'], 'str': [b'd', b'e']}[kind]
+        o = Opt(kind, 'o', fl, dl if 'L' in fl else d)
+    return Schema('ODD', [o, Opt('int', 'z', '', 3)])       # one id, redefined for every combination
+
+
+def shard_odd(shard):
+    items, deadline = shard
+    drv = get_driver('asan')
+    st = ShardStats('odd flag combinations')
+    for (kind, mask) in items:
+        sch = odd_schema(kind, mask)
+        SCHEMAS[sch.sid] = sch
+        drv.define_schema(sch.sid, sch.spec())
+        cases = []
+        for fl in (0, CFGF['COMMENTS'], CFGF['IGNORE_UNKNOWN'], CFGF['NOCASE']):
+            for t in ODD_TEXTS:
+                cases.append(robust_case(sch.sid, fl, t, (b'z = 7', b'z'), quiet=True))
+        for c, r in zip(cases, drv.run(cases)):
+            judge_robust(st, sch.sid, c, r, (b'z = 7', b'z'))
+            st.transitions += 1
+        st.nontriv('%s/%d' % (kind, mask))
+        if time.time() > deadline:
+            st.complete = False
+            break
+    if not st.samples:
+        st.samples.append({'option_kinds': list(ODD_KINDS), 'flag_letters': ODD_FLAGS, 'texts': len(ODD_TEXTS)})
+    return st.result([drv])
+
+
 def shapes(nmax):
     sizes = [n for n in (1, 2, 10, 100, 1000, 10000, 100000) if n <= nmax]
     bounds = [31, 32, 33, 63, 64, 65, 8191, 8192, 8193, 16383, 16384, 16385]
@@ -338,22 +387,62 @@ def shapes(nmax):
         out.append(('free-form-keys', min(n, 10000), 0, b'c { ' + b''.join(b'k%d = v ' % k for k in range(min(n, 10000))) + b'}'))
         out.append(('free-form-keys-beside-declared-options', min(n, 10000), 0, b'k2 { ' + b''.join(b'k%d = v ' % k for k in range(min(n, 10000))) + b'd1 = 3 }'))
         out.append(('ptr-values', n, 0, b'z = {' + b','.join([b'p'] * n) + b'}'))
-    for n in sorted(set(sizes + bounds)):
+    # token families: one token of n bytes in every role a token can play.  n ranges over every length up to a small bound and
+    # over the neighbourhood of every power of two (fixed-size buffers are where a length goes wrong)
+    small = list(range(1, 81 if nmax <= 10000 else 301))
+    pow2 = [m + d for m in (16, 32, 64, 128, 256, 512, 1024, 2048, 4096, 8192, 16384, 32768, 65536) for d in (-1, 0, 1)]
+    W = lambda n: b'w' * n
+    token_families = [
+        ('unquoted-token', 0, lambda n: b'b = ' + W(n)),
+        ('dq-token', 0, lambda n: b'b = "' + W(n) + b'"'),
+        ('dq-token-unclosed', 0, lambda n: b'b = "' + W(n)),
+        ('sq-token', 0, lambda n: b"b = '" + W(n) + b"'"),
+        ('sq-token-unclosed', 0, lambda n: b"b = '" + W(n)),
+        ('line-comment-token', CM, lambda n: b'#' + W(n) + b'\nb = z'),
+        ('block-comment-token', CM, lambda n: b'/*' + W(n) + b'*/ b = z'),
+        ('block-comment-unclosed', CM, lambda n: b'/*' + W(n)),
+        ('title-token', 0, lambda n: b'e "' + W(n) + b'" { }'),
+        ('title-token-twice', 0, lambda n: b'e ' + W(n) + b' { n = 2 } e ' + W(n) + b' { }'),
+        ('name-token', IG, lambda n: W(n) + b' = 1'),
+        ('name-token-refused', 0, lambda n: W(n) + b' = 1'),
+        ('section-name-token', IG, lambda n: W(n) + b' t { b = 1 } b = z'),
+        ('env-name-token', 0, lambda n: b'b = ${' + W(n) + b'}'),
+        ('env-default-token', 0, lambda n: b'b = ${U:-' + W(n) + b'}'),
+        ('blanks', 0, lambda n: b' ' * n + b'b = z'),
+        ('escape-digits', 0, lambda n: b'b = "\\' + b'7' * min(n, 4000) + b'"'),
+        # a name is looked up through the path machinery: every step of a path, its qualifiers, its last step
+        ('path-first-step', IG, lambda n: W(n) + b'|n = 1'),
+        ('path-first-step-refused', 0, lambda n: W(n) + b'|n = 1'),
+        ('path-first-step-qualified', IG, lambda n: W(n) + b'=t|n = 1'),
+        ('path-title-qualifier', 0, lambda n: b'e t { } e=' + W(n) + b'|n = 1'),
+        ('path-title-qualifier-found', 0, lambda n: b'e ' + W(n) + b' { } e=' + W(n) + b'|n = 2'),
+        ('path-quoted-title-qualifier', 0, lambda n: b'e t { } "e=\'' + W(n) + b'\'|n" = 1'),
+        ('path-index-qualifier', 0, lambda n: b'e t { } e=' + b'1' * n + b'|n = 1'),
+        ('path-last-step', 0, lambda n: b'e t { } e|' + W(n) + b' = 1'),
+        ('path-last-step-skipped', IG, lambda n: b'e t { } e|' + W(n) + b' = 1'),
+        ('path-many-steps', IG, lambda n: b'|'.join([b'w'] * n) + b' = 1'),
+        ('path-separators', IG, lambda n: b'e' + b'|' * n + b'n = 1'),
+        # values of every kind, list elements, call arguments, include targets, free-form keys and values
+        ('int-token', 0, lambda n: b'a = {' + b'1' * n + b'}'),
+        ('int-token-zeros', 0, lambda n: b'a = {' + b'0' * n + b'7}'),
+        ('float-token', 0, lambda n: b'v = 1.' + b'1' * n),
+        ('float-token-exponent', 0, lambda n: b'v = 1e-' + b'0' * n + b'1'),
+        ('bool-token', 0, lambda n: b't = ' + W(n)),
+        ('list-element-token', 0, lambda n: b'x { r = {a, ' + W(n) + b', b} }'),
+        ('ptr-token', 0, lambda n: b'z = {' + W(n) + b'}'),
+        ('call-arg-token', 0, lambda n: b'f(' + W(n) + b', "' + W(n) + b'")'),
+        ('include-target-token', 0, lambda n: b'include(' + W(n) + b')'),
+        ('include-target-path-token', 0, lambda n: b'include("' + b'/'.join([b'w'] * n) + b'")'),
+        ('free-form-key-token', 0, lambda n: b'c { ' + W(n) + b' = v }'),
+        ('free-form-value-token', 0, lambda n: b'c { k = ' + W(n) + b' }'),
+        ('free-form-key-twice', 0, lambda n: b'c { ' + W(n) + b' = v ' + W(n) + b' = u }'),
+        ('free-form-key-beside-declared', 0, lambda n: b'k2 { ' + W(n) + b' = v d1 = 3 }'),
+    ]
+    for n in sorted(set(sizes + bounds + small + pow2)):
         if n > nmax:
             continue
-        out.append(('unquoted-token', n, 0, b'b = ' + b'w' * n))
-        out.append(('dq-token', n, 0, b'b = "' + b'w' * n + b'"'))
-        out.append(('dq-token-unclosed', n, 0, b'b = "' + b'w' * n))
-        out.append(('sq-token', n, 0, b"b = '" + b'w' * n + b"'"))
-        out.append(('sq-token-unclosed', n, 0, b"b = '" + b'w' * n))
-        out.append(('line-comment-token', n, CM, b'#' + b'w' * n + b'\nb = z'))
-        out.append(('block-comment-token', n, CM, b'/*' + b'w' * n + b'*/ b = z'))
-        out.append(('block-comment-unclosed', n, CM, b'/*' + b'w' * n))
-        out.append(('title-token', n, 0, b'e "' + b'w' * n + b'" { }'))
-        out.append(('name-token', n, CFGF['IGNORE_UNKNOWN'], b'w' * n + b' = 1'))
-        out.append(('env-name-token', n, 0, b'b = ${' + b'w' * n + b'}'))
-        out.append(('blanks', n, 0, b' ' * n + b'b = z'))
-        out.append(('escape-digits', min(n, 4000), 0, b'b = "\\' + b'7' * min(n, 4000) + b'"'))
+        for (name, flags, fn) in token_families:
+            out.append((name, n, flags, fn(n)))
     return out
 
 
@@ -460,8 +549,14 @@ def main():
     A = len(alpha)
     # (c) shapes and (d) sources first: they are few and each can be slow
     sh = shapes(10000)
-    engine.phase(ck, 'shape families n <= 10^4', shard_shapes, [(list(c), 'asan', dl) for c in engine.chunks(sh, 12)], shapes=len(sh))
+    sh.sort(key=lambda x: -len(x[3]))          # the long ones first, spread over the shards
+    K = max(16, len(sh) // 24)
+    engine.phase(ck, 'shape families n <= 10^4; one token of every length 1..80 and around every power of two in every role', shard_shapes,
+                 [(sh[i::K], 'asan', dl) for i in range(K)], shapes=len(sh))
     engine.phase(ck, 'sources and odd targets', shard_sources, [dl])
+    odd = [(k, m) for k in ODD_KINDS for m in range(1 << len(ODD_FLAGS))]
+    engine.phase(ck, 'every subset of 9 option flags on every option kind (meaningful or not) x 4 context flag sets x %d texts' % len(ODD_TEXTS), shard_odd,
+                 [(list(c), dl) for c in engine.chunks(odd, 28)], schemas=len(odd))
     # (a) byte strings
     def buf_strings(length):
         shards = []
